@@ -179,7 +179,7 @@ func c18RawCRun(t *testing.T, c c18RawCCase) c18RawOutcome {
 		ctx, cancelAll := context.WithTimeout(context.Background(), c18Timeout)
 		var swg sync.WaitGroup
 		var connMu sync.Mutex
-		var sconns []*quic.Conn
+		var sconns, cconns []*quic.Conn
 		serveDone := make(chan struct{})
 		verdict := make(chan struct{}) // closed when the scripted server has finished judging connection 0
 		go func() {
@@ -210,7 +210,13 @@ func c18RawCRun(t *testing.T, c c18RawCCase) c18RawOutcome {
 			DisableCompression: c.Gzip == 0,
 			Logger:             c18Logger(c.CLog),
 			Dial: func(ctx context.Context, addr string, tlsCfg *tls.Config, cfg *quic.Config) (*quic.Conn, error) {
-				return d.Dial(ctx, w.ServerAddr, tlsCfg, cfg)
+				conn, err := d.Dial(ctx, w.ServerAddr, tlsCfg, cfg)
+				if conn != nil {
+					connMu.Lock()
+					cconns = append(cconns, conn)
+					connMu.Unlock()
+				}
+				return conn, err
 			},
 		}
 		client := &http.Client{Transport: tr}
@@ -288,6 +294,11 @@ func c18RawCRun(t *testing.T, c c18RawCCase) c18RawOutcome {
 			}
 		}
 		tr.Close()
+		connMu.Lock()
+		for _, cc := range cconns {
+			cc.CloseWithError(0, "")
+		}
+		connMu.Unlock()
 		d.Close()
 		cancelAll()
 		connMu.Lock()
